@@ -191,8 +191,37 @@ def obs_events(chk):
     chk.sample('obs-event', batch.events[0], 1)
 
 
+def replay_criteria(chk, st):
+    """Criteria.tla (spec growth): the real Criteria object fed the same value order must stop at the same calls."""
+    from spectrum.criteria import Criteria
+    hist, ret = st['hist'], st['ret']
+    if not hist:
+        return
+    c = Criteria('AIC', 20)
+    got = []
+    for v in hist:
+        # the object stores whatever it is given through .data; feed the abstract values directly
+        prev = c.data
+        c.data = float(v)
+        got.append(not (prev is not None and c.data > c.old_data) if prev is not None else not (c.data > c.old_data))
+    exp = list(ret)
+    regs_ok = c.data == float(hist[-1]) and (len(hist) < 2 or c.old_data == float(hist[-2]))
+    if got != exp or not regs_ok:
+        chk.violation('C13:criteria-object:stop-rule', 'Criteria registers / stop decisions %s differ from the model %s for values %s'
+                      % (got, exp, list(hist)), {'values': list(hist), 'expect': exp, 'observed': got})
+    chk.count('criteria-object', 'replayed')
+    chk.replayed += 1
+
+
+def criteria_job(chk):
+    extra = {'MC_Criteria.tla': '---- MODULE MC_Criteria ----\nEXTENDS Criteria\nVals == -2..3\n====\n'}
+    cfg = tlc._cfg_text(constants={'Values': '<- Vals', 'MaxCalls': 4}, invariants=['StopRule', 'Registers'])
+    return {'module': 'MC_Criteria', 'cfg': cfg, 'part': 'criteria-object', 'replay': lambda st: replay_criteria(chk, st),
+            'kw': {'extra_files': extra}}
+
+
 def run(chk):
-    core.run_jobs(chk, jobs(chk))
+    core.run_jobs(chk, jobs(chk) + [criteria_job(chk)])
     obs_events(chk)
 
 
